@@ -29,8 +29,10 @@ impl Solution {
             .ok_or(Error::Interpolation(InterpolationError::NotEnabled))?;
         let (start, end) = dense.t_span().ok_or(Error::Interpolation(InterpolationError::NotEnabled))?;
         let (lo, hi) = (start.min(end), start.max(end));
-        // the same slack as the segment lookup: the last sample may sit a rounding error beyond `xold + h` of its segment
-        if t < lo - time_tol(lo) || t > hi + time_tol(hi) {
+        // the same slack as the segment lookup: the last sample may sit a rounding error beyond `xold + h` of its segment,
+        // and that error is the one of the larger end (a run from 3.3e7 down to 0.7 ends at 0.7000000000116)
+        let tol = time_tol(lo).max(time_tol(hi));
+        if t < lo - tol || t > hi + tol {
             return Err(Error::Interpolation(InterpolationError::OutOfRange {
                 t,
                 t_start: start,
@@ -53,8 +55,9 @@ impl Solution {
             .ok_or(Error::Interpolation(InterpolationError::NotEnabled))?;
         let (start, end) = dense.t_span().ok_or(Error::Interpolation(InterpolationError::NotEnabled))?;
         let (lo, hi) = (start.min(end), start.max(end));
+        let tol = time_tol(lo).max(time_tol(hi));
         for &t in ts {
-            if t < lo - time_tol(lo) || t > hi + time_tol(hi) {
+            if t < lo - tol || t > hi + tol {
                 return Err(Error::Interpolation(InterpolationError::OutOfRange {
                     t,
                     t_start: start,
@@ -62,8 +65,22 @@ impl Solution {
                 }));
             }
         }
-        let results = dense.evaluate_many(ts);
-        Ok(results.into_iter().map(|opt| opt.unwrap()).collect())
+        // a time inside the range test that no segment covers (it lies in the slack of the span but beyond the slack of the
+        // segment at that end) is out of range, as in `sol`
+        let mut out = Vec::with_capacity(ts.len());
+        for (&t, opt) in ts.iter().zip(dense.evaluate_many(ts)) {
+            match opt {
+                Some(v) => out.push(v),
+                None => {
+                    return Err(Error::Interpolation(InterpolationError::OutOfRange {
+                        t,
+                        t_start: start,
+                        t_end: end,
+                    }))
+                }
+            }
+        }
+        Ok(out)
     }
 
     /// Return the time span covered by the dense output if available.
